@@ -39,7 +39,9 @@ def gen_case(rng):
     L.restart()
     L.params(p1)
     for _ in range(rng.range(4, 30)):
-        if rng.chance(3, 5):
+        if rng.chance(1, 12):
+            ops += fs.remote_stream(rng, L)
+        elif rng.chance(3, 5):
             ops.append(fs.app_op(rng, L, False))
         else:
             ops.append(fs.frame_op(rng, L))
